@@ -553,15 +553,99 @@ def check_multifile(ctx: Ctx, inp) -> None:
         ctx.disagree(f"multifile:schema:{direction}", f"two files use the local reference {local!r} for different schemas: implementation reports={got}, documentation says deviates={expected} for body {body!r}", input=inp)
 
 
+# ---- media type parsing on its own (RFC 9110 spellings) -----------------------------------------------------------
+
+MT_TYPES = ["application", "text", "APPLICATION", "Text", "image", "*", "multipart"]
+MT_SUBTYPES = ["json", "JSON", "problem+json", "vnd.api+JSON", "xml", "atom+xml", "plain", "x-ndjson", "json-seq", "jsonx", "xjson", "json+xml", "*", "x-www-form-urlencoded", "Plain"]
+MT_VALUE_ALPHABET = "ab1 ;=,/\"\\+*'"
+
+
+@st.composite
+def media_type_case(draw):
+    params = []
+    for _ in range(draw(st.integers(0, 3))):
+        quoted = draw(st.booleans())
+        value = draw(st.text(alphabet=st.sampled_from(MT_VALUE_ALPHABET if quoted else "ab1-_.+"), min_size=0 if quoted else 1, max_size=6))
+        params.append([draw(st.sampled_from(["charset", "boundary", "profile", "version", "Q"])), value, quoted, draw(st.sampled_from(["", " ", "\t", "  "])), draw(st.sampled_from(["", " "]))])
+    return {"type": draw(st.sampled_from(MT_TYPES)), "subtype": draw(st.sampled_from(MT_SUBTYPES)), "params": params, "malformed": draw(st.sampled_from([None, None, None, None, "no-slash", "empty"]))}
+
+
+def render_media_type(inp) -> str:
+    if inp["malformed"] == "empty":
+        return ""
+    text = inp["type"] + ("/" + inp["subtype"] if inp["malformed"] != "no-slash" else inp["subtype"].replace("/", ""))
+    for name, value, quoted, before, after in inp["params"]:
+        v = '"' + value.replace("\\", "\\\\").replace('"', '\\"') + '"' if quoted else value
+        text += f"{before};{after}{name}={v}"
+    return text
+
+
+def check_media_type(ctx: Ctx, inp) -> None:
+    """``media_types.parse`` and the is_* predicates against the grammar the value was rendered from: parameters (whatever they
+    contain once quoted) and optional whitespace never change the type / subtype, which are case-insensitive."""
+    from schemathesis.core import media_types
+    from schemathesis.core.errors import MalformedMediaType
+
+    text = render_media_type(inp)
+    media_types.parse.cache_clear()
+    ctx.case(nontrivial=inp if inp["params"] else None, classes=[f"params={len(inp['params'])}", "quoted" if any(p[2] for p in inp["params"]) else "unquoted", f"malformed={inp['malformed']}"], sample={"text": text})
+    if inp["malformed"]:
+        try:
+            got = media_types.parse(text)
+        except MalformedMediaType:
+            return
+        except Exception as exc:  # noqa: BLE001
+            ctx.disagree("media-type:malformed-value-raises-another-exception:" + type(exc).__name__, f"{text!r}: {exc!r}", input=inp)
+            return
+        ctx.disagree("media-type:malformed-value-parsed", f"{text!r} -> {got}", input=inp)
+        return
+    want = (inp["type"].lower(), inp["subtype"].lower())
+    try:
+        got = media_types.parse(text)
+    except Exception as exc:  # noqa: BLE001
+        ctx.disagree("media-type:well-formed-value-rejected", f"{text!r}: {exc!r}", input=inp)
+        return
+    if got != want:
+        ctx.disagree("media-type:parse-differs", f"{text!r} -> {got}, expected {want}", input=inp)
+        return
+    exp_json = want[0] == "application" and (want[1] == "json" or want[1].endswith("+json"))
+    exp_xml = want[1] == "xml" or want[1].endswith("+xml")
+    exp_plain = want == ("text", "plain")
+    for name, fn, exp in (("is_json", media_types.is_json, exp_json), ("is_xml", media_types.is_xml, exp_xml), ("is_plain_text", media_types.is_plain_text, exp_plain)):
+        if fn(text) != exp:
+            ctx.disagree(f"media-type:{name}-differs", f"{name}({text!r}) is {fn(text)}, expected {exp}", input=inp)
+
+
+def decode_media_type(data: bytes):
+    import atheris
+
+    fdp = atheris.FuzzedDataProvider(data)
+    params = []
+    for _ in range(fdp.ConsumeIntInRange(0, 3)):
+        quoted = fdp.ConsumeBool()
+        alphabet = MT_VALUE_ALPHABET if quoted else "ab1-_.+"
+        value = "".join(alphabet[fdp.ConsumeIntInRange(0, len(alphabet) - 1)] for _ in range(fdp.ConsumeIntInRange(0 if quoted else 1, 6)))
+        params.append([["charset", "boundary", "profile"][fdp.ConsumeIntInRange(0, 2)], value, quoted, ["", " ", "\t"][fdp.ConsumeIntInRange(0, 2)], ["", " "][fdp.ConsumeIntInRange(0, 1)]])
+    return {"type": MT_TYPES[fdp.ConsumeIntInRange(0, len(MT_TYPES) - 1)], "subtype": MT_SUBTYPES[fdp.ConsumeIntInRange(0, len(MT_SUBTYPES) - 1)], "params": params, "malformed": [None, None, None, "no-slash", "empty"][fdp.ConsumeIntInRange(0, 4)]}
+
+
+def run_fuzz_media_type(ctx, spec):
+    from vfw import core
+
+    core.run_atheris(ctx, dict(spec, replay_sub="media_types"), "media_types", check_media_type, 30000 if ctx.tier == "quick" else 1500000)
+
+
 SUBS = [
+    Sub("fuzz_media_types", runner=run_fuzz_media_type, quick=(1, 0), thorough=(4, 0), timeout_quick=300, timeout_thorough=3000),
+    Sub("media_types", fn=check_media_type, strategy=media_type_case, quick=(4, 2000), thorough=(16, 40000), timeout_quick=300, timeout_thorough=3000),
     Sub("multifile", fn=check_multifile, strategy=multifile_case, quick=(8, 150), thorough=(16, 3000), timeout_quick=300, timeout_thorough=3000),
     Sub("pairs", fn=check_pair, strategy=lambda: st.one_of(pair(), pair(), pair(), pair(), write_only_pair()), quick=(16, 600), thorough=(16, 6000), timeout_quick=300, timeout_thorough=3000),
 ]
-FLOOR = {"pairs": 2000, "multifile": 500}
+FLOOR = {"pairs": 2000, "multifile": 500, "media_types": 4000}
 
 MANIFEST = {
     "category": "exploration",
     "technique": "Hypothesis-generated (documentation, response) pairs against an independent OpenAPI conformance oracle, per check, both directions",
-    "text": "Witness-first generated `responses` sections (explicit / NXX / default keys, $ref'd responses and schemas, recursion, several media types incl. wildcards, parameterised and JSON look-alike types, nullable, writeOnly, documented headers; OpenAPI 3.0, 3.1 and Swagger 2.0) are paired with generated responses (status, Content-Type variants, header presence/validity, bodies incl. malformed JSON); for each of the four conformance checks the verdict of case.validate_response is compared with the oracle's 'deviates' in both directions. Exploration only.",
+    "text": "media_types.parse and the is_json / is_xml / is_plain_text predicates are compared with the grammar the value was rendered from (RFC 9110 spellings: optional whitespace, quoted parameter values containing separators, letter case; Hypothesis and an atheris target). Witness-first generated `responses` sections (explicit / NXX / default keys, $ref'd responses and schemas, recursion, several media types incl. wildcards, parameterised and JSON look-alike types, nullable, writeOnly, documented headers; OpenAPI 3.0, 3.1 and Swagger 2.0) are paired with generated responses (status, Content-Type variants, header presence/validity, bodies incl. malformed JSON); for each of the four conformance checks the verdict of case.validate_response is compared with the oracle's 'deviates' in both directions. Exploration only.",
     "note": "Trusts jsonschema as the JSON-Schema meaning and Hypothesis; spec-silent combinations are generated but not asserted (counted as inconclusive); responses are built in memory, not received over HTTP.",
 }
